@@ -46,7 +46,9 @@ def kani_harnesses(prop, tier):
         return []
     if prop == "C18":
         # measured: center at order 2 ~110 s, at order 3 ~650 s (Vec push/clear); ecc/periphery at order 3 ~20 s
-        sel = [(1, "new ecc center periphery", "usize isize"), (2, "new ecc center periphery", "usize isize"), (3, "new ecc", "usize")]
+        # every C18 function is proved by Verus (units dm_metrics, dm_metrics_usize, dm_new, distance_matrix); the Kani
+        # harnesses are an independent bounded cross-check kept for the thorough tier (center at order 3 alone: ~11 min)
+        sel = []
         if tier == "thorough":
             sel = [(1, "new ecc center periphery", "usize isize"), (2, "new ecc center periphery", "usize isize"),
                    (3, "new ecc center periphery", "usize isize"), (4, "new ecc", "usize isize")]
